@@ -42,6 +42,11 @@ type tcase struct {
 		Pos    []int  `json:"pos"`
 		Judged bool   `json:"judged"`
 	} `json:"exp"`
+	Nested map[string]struct {
+		Res    string `json:"res"`
+		Pos    []int  `json:"pos"`
+		Judged bool   `json:"judged"`
+	} `json:"nested"`
 }
 
 var hugeText = map[int]string{
@@ -93,6 +98,7 @@ type drv struct {
 	seq    int
 	rnd    *rand.Rand
 	uidSeq []int
+	rot    int
 }
 
 func lit(tag string) []byte {
@@ -264,6 +270,32 @@ func (d *drv) doSearch(c *tcase) {
 		}
 	}
 	d.verdict(c, "SEARCH", res.Status, uniq(got), !res.Closed && !res.TimedOut)
+	// the same set below NOT, inside OR, in a parenthesised list: every form where the set is refused, one form otherwise
+	forms := []string{"paren", "or", "notnot", "not"}
+	if c.Exp.Res != "BAD" {
+		d.rot++
+		forms = forms[d.rot%4 : d.rot%4+1]
+	}
+	for _, f := range forms {
+		e, ok := c.Nested[f]
+		if !ok {
+			continue
+		}
+		text := map[string]string{"paren": "(" + key + ")", "or": "OR " + key + " " + key, "notnot": "NOT NOT " + key, "not": "NOT " + key}[f]
+		res := d.c.Cmd("SEARCH " + text)
+		var got []int
+		for _, l := range res.Untagged {
+			if strings.HasPrefix(l.Text, "* SEARCH") {
+				for _, x := range strings.Fields(l.Text)[2:] {
+					n, _ := strconv.Atoi(x)
+					got = append(got, n)
+				}
+			}
+		}
+		nc := *c
+		nc.Exp = e
+		d.verdict(&nc, "SEARCH-"+f, res.Status, uniq(got), !res.Closed && !res.TimedOut)
+	}
 }
 
 // flagged returns the positions that carry \Flagged.
